@@ -107,7 +107,7 @@ INext == /\ Len(hist) < MaxDepth
                            /\ ~Ambiguous(st')
                            /\ LET r == IStep(st, o) IN ent' = SubSeq(r[1], 1, Len(r[1])) /\ tabs' = ToSet(r[2])
                            /\ hist' = Append(hist, o)
-                           /\ feat' = feat \cup Features(st, o)
+                           /\ feat' = feat \cup Features(st, o) \cup StateFeatures(st')
 Emit == PrintT(ToJson([ops |-> hist', feat |-> feat']))
 \* the residue that matters: which entry each table slot shares, its owner and flag (not its index)
 Shape == [p \in P |-> [k \in Kinds |-> [n \in N |->
